@@ -138,6 +138,43 @@ def run(rep, tier, seed):
         sig = "errline %s %s%s %s" % (it["kind"], it["ctx"], " crlf" if it["crlf"] else "", delta)
         rep.disagree(sig, {"src": it["src"], "expected": exp, "got": it["raw"]})
     filter_lines(rep, rnd, tier)
+    driver_lines(rep, rnd, tier, items)
+
+
+def driver_lines(rep, rnd, tier, items):
+    """the same kind of programs through the real binary, from a file and with -c, with blank / blank-looking lines in
+    front of the first statement and behind the last: the drivers hand the text to the scanner as it is"""
+    import os
+    import re
+    import shutil
+    core.build_binary()
+    d = core.workdir("c13e2e")
+    try:
+        heads = ["", "\n", "\n\n\n", "  \n\t\n", "\n# c\n\n", " \n"]
+        jobs = []
+        metas = []
+        pick = [it for it in items if not it["crlf"] and it.get("out", {}).get("how") == "rterror"]
+        rnd.shuffle(pick)
+        for k, it in enumerate(pick[:(60 if tier == "quick" else 600)]):
+            head = heads[k % len(heads)]
+            text = head + it["src"] + rnd.choice(["", "\n\n", "  \n"])
+            want = it["out"]["line"] + head.count("\n")
+            path = os.path.join(d, "s%d.p2" % k)
+            open(path, "w").write(text)
+            jobs.append(([path], b""))
+            metas.append(("file", it, text, want))
+            jobs.append((["-c", text], b""))
+            metas.append(("-c", it, text, want))
+        for (mode, it, text, want), r in zip(metas, e2e.run_many(jobs)):
+            rep.cov["evaluations"] += 1
+            m = re.search(rb"\[line (\d+)\] Runtime error", r["err"])
+            got = int(m.group(1)) if m else None
+            if r["how"] != "exit" or got != want:
+                lead = "leading-blank-lines" if text[:1] in "\n \t" else "no-leading-blanks"
+                rep.disagree("errline %s driver %s %s %s" % (it["kind"], mode, lead, "line" if got is not None else r["how"]),
+                             {"src": text, "want_line": want, "got_line": got, "stderr": r["err"].decode("utf8", "replace")[:300]})
+    finally:
+        shutil.rmtree(d, ignore_errors=True)
 
 
 def filter_lines(rep, rnd, tier):
